@@ -404,6 +404,7 @@ pub fn run(ctx: &Ctx) -> i32 {
         Eval { nontrivial: stats.replays > 0, violations, classes, watchdog: trace.watchdog }
     });
     agg.merge(hist);
+    agg.merge(crate::props::scen::replay_saved(ctx, "C09", &|st, _| st.replays > 0));
     finish(
         ctx,
         agg,
